@@ -418,8 +418,24 @@ impl Check for DeriveCheck {
                             format!("{name}: backlog {backlog:?}, free {free:?}: expected {expect_n} steps on every stream, consumed {:?} produced {:?}", st.consumed, st.produced),
                         ));
                     }
-                    if st.verdict != Verdict::Again {
-                        return Err(Violation::new(format!("C19:{name}:verdict"), format!("{name}: moved {expect_n} samples but answered {:?}", st.verdict)));
+                    // After a batch: `Again`, or a wait on a stream that the batch
+                    // left empty (input) or full (output) — "waits on the stream
+                    // that is empty or full". A wait naming a stream that still
+                    // has samples / room is misdirected.
+                    let ok = match &st.verdict {
+                        Verdict::Again => true,
+                        Verdict::WaitStream { id, need, .. } if *need >= 1 => {
+                            let empty_in = w.case.ins.iter().enumerate().any(|(i, p)| p.id() == *id && backlog[i] == expect_n);
+                            let full_out = w.case.outs.iter().enumerate().any(|(j, p)| p.id() == *id && free[j] == expect_n);
+                            if empty_in || full_out {
+                                ctx.count("wait_verdict_from_a_batch_that_emptied_or_filled_the_stream");
+                            }
+                            empty_in || full_out
+                        }
+                        _ => false,
+                    };
+                    if !ok {
+                        return Err(Violation::new(format!("C19:{name}:verdict"), format!("{name}: moved {expect_n} samples (backlog {backlog:?}, free {free:?}) but answered {:?}, which names no stream the batch left empty or full", st.verdict)));
                     }
                 }
                 let all_fed = w.case.ins.iter().all(|p| p.fed() == p.total());
